@@ -16,7 +16,7 @@ import json
 from concurrent.futures import ThreadPoolExecutor
 
 from .common import *
-from .histlib import HistGen, run_scripts, block_join_history
+from .histlib import HistGen, run_scripts, block_join_history, double_update_history
 from .treelib import *
 
 
@@ -83,6 +83,11 @@ def main(run, args):
     # over the tree commit with a path and everybody, the joiners included, must follow
     for i in range(8 if quick else 60):
         g, _ = block_join_history(rng, i, f"c09-block-{i}", quick)
+        scripts.append(g.script())
+    # directed: a member sends two Update proposals in one epoch and the commit carries the first, the second
+    # or (the committer's choice) one of both: the member must hold the leaf key of the committed one
+    for i in range(6 if quick else 36):
+        g, _ = double_update_history(rng, i, f"c09-dupd-{i}", quick)
         scripts.append(g.script())
     # directed: a member re-joins by an external commit that removes its old leaf and lands on an EARLIER
     # blank leaf: the old leaf's direct path is blanked, and the other members must drop the keys they
